@@ -92,13 +92,24 @@ func runC19(c *c19Case) *c19Obs {
 		}
 	}
 	smux := &lime.EnvelopeMux{}
+	var srvGate atomic.Value // chan struct{}: while set, the server's handler stays in messages whose id starts with "stall-"
 	smux.MessageHandlerFunc(nil, func(ctx context.Context, m *lime.Message, _ lime.Sender) error {
 		sid, _ := lime.ContextSessionID(ctx)
 		mu.Lock()
 		handledBy[m.ID] = sid
 		mu.Unlock()
+		if g, _ := srvGate.Load().(chan struct{}); g != nil && strings.HasPrefix(m.ID, "stall-") {
+			<-g
+		}
 		return nil
 	})
+	openSrvGate := func() {
+		if g, _ := srvGate.Load().(chan struct{}); g != nil {
+			srvGate.Store((chan struct{})(nil))
+			close(g)
+		}
+	}
+	defer openSrvGate()
 	stls, ctls := TLSConfigs()
 	srvTCP, cliTCP := &lime.TCPConfig{ReadLimit: c19ReadLimit}, &lime.TCPConfig{ReadLimit: c19ReadLimit}
 	if tlsOn {
@@ -205,7 +216,13 @@ func runC19(c *c19Case) *c19Obs {
 		// traffic around the moment of the fault
 		var bg sync.WaitGroup
 		openGate := func() {}
-		switch f.Moment {
+		moment := f.Moment
+		if f.Kind == "stalled-send" {
+			// the stalled sends are the traffic of this fault; another sender would queue behind them on the channel's send lock,
+			// and a lock wait stops the virtual clock their deadlines depend on
+			moment = "idle"
+		}
+		switch moment {
 		case "during-send":
 			senders := c.Senders
 			if senders < 1 {
@@ -256,6 +273,9 @@ func runC19(c *c19Case) *c19Obs {
 		runtime.Gosched()
 		conn := lastConn()
 		fctx, fcancel := context.WithTimeout(context.Background(), 2*time.Second)
+		if f.Kind != "stalled-send" {
+			openSrvGate() // a session an earlier round left stalled is let go
+		}
 		switch f.Kind {
 		case "server-finish":
 			_ = sc.FinishSession(fctx)
@@ -304,6 +324,27 @@ func runC19(c *c19Case) *c19Obs {
 			if conn != nil {
 				_, _ = conn.Server.Write([]byte("{\"id\":\"" + sc.ID() + "\",\"from\":\"postmaster@srv.example/s1\",\"state\":\"negotiating\"}\n"))
 			}
+		case "stalled-send":
+			// the server stops reading for a while; the application keeps sending with short deadlines until the buffers are full
+			// and a send is given up half way: the session is lost by that (a TCP stream cannot carry another envelope after a
+			// torn one, TLS cannot even say how far it got), and the client has to come back on a fresh one
+			if conn != nil {
+				openSrvGate()
+				srvGate.Store(make(chan struct{})) // the dispatch loop of this session stays in its handler: the server stops consuming
+				payload := strings.Repeat("s", c19ReadLimit/2) // well within the server's read limit
+				for k := 0; k < 200; k++ {
+					m := &lime.Message{}
+					m.ID = fmt.Sprintf("stall-%d-%d", fi, k)
+					m.SetContent(lime.TextDocument(payload))
+					ctx, cancel := context.WithTimeout(context.Background(), 300*time.Millisecond)
+					err := client.SendMessage(ctx, m)
+					cancel()
+					if err != nil {
+						break
+					}
+				}
+				time.Sleep(2 * time.Second)
+			}
 		case "repeat-established":
 			// the server says established once more on the established session (no session envelope but finished / failed has a
 			// place there): whatever the client makes of it, it must not stay deaf on that connection
@@ -314,7 +355,7 @@ func runC19(c *c19Case) *c19Obs {
 		fcancel()
 		bg.Wait()
 		synctest.Wait()
-		if f.Moment == "backlog" {
+		if moment == "backlog" {
 			// the fault has settled; the application sends while its handler is still stuck. Whatever is reported sent must
 			// reach the server (on whatever session); a failure is fine
 			for k := 0; k < 3; k++ {
@@ -396,6 +437,7 @@ func runC19(c *c19Case) *c19Obs {
 		}
 	}
 	mu.Unlock()
+	openSrvGate() // a session left stalled by the last round is let go before everything is closed
 	_ = client.Close()
 	_ = server.Close()
 	<-done
@@ -470,7 +512,7 @@ func judgeC19(c *c19Case, obs *c19Obs, o *Outcome) {
 	}
 }
 
-var c19Faults = []string{"server-finish", "server-fail", "cut", "eof", "half-close", "garbage", "non-envelope", "oversized", "regress-session", "repeat-established", "refuse"}
+var c19Faults = []string{"server-finish", "server-fail", "cut", "eof", "half-close", "garbage", "non-envelope", "oversized", "regress-session", "repeat-established", "stalled-send", "refuse"}
 
 func c19Watchdog(rec *Recorder, stop chan struct{}) {
 	// real time, outside any bubble: a spinning library goroutine freezes the bubble's fake clock
